@@ -1,4 +1,4 @@
-import CalicoVerif.Proofs.C16j
+import CalicoVerif.Proofs.C16ze
 import CalicoVerif.Gen.C16
 /-!
 C16 — IP set sync converges and never breaks rules that use a set.
@@ -7,9 +7,10 @@ Property theorems over the model `CalicoVerif.Model.C16` of felix/ipsets (`IPSet
 fail and where) + order hints (Go map iteration orders); every theorem below is for ALL `W`,
 i.e. all start kernels, all in-memory states, all failure plans, all orders.
 
-What is NOT proved in Lean (checked only by the correspondence run and by the harness oracle on
-the real code): the convergence clause itself ("after a successful apply every desired set is
-exactly as desired and no other owned set remains") — see `level_note` in checks/C16.json.
+The convergence clause is proved for a successful `ApplyUpdates` that begins with a full resync
+(`fullResyncRequired`: start of day, restart, or after persistent failures), for every failure plan
+inside that call; what is not proved is the same statement for a call that relies on a view kept
+accurate incrementally (no out-of-band edit since the last resync) — see `level_note`.
 -/
 namespace CalicoVerif.C16
 
@@ -31,23 +32,81 @@ theorem never_destroy_desired_applyDeletions (w : W) (n : String)
     (hd : w.F.desired.has n = true) (hk : w.K.has n = true) : w.applyDeletions.1.K.has n = true :=
   (applyDeletions_KD w).2.2 n hd hk
 
-/-- **foreign_untouched, ApplyUpdates** (`_partial`: the hypothesis `hD` "every desired name is one
-Felix owns" is assumed; it holds because desired names are `NameForMainIPSet` names, but its
-preservation by the API calls is not proved here).  For every failure plan, order and start
-state, a set whose name Felix does not own is bit-for-bit unchanged by `ApplyUpdates`. -/
-theorem foreign_untouched_applyUpdates_partial (w : W) (hc : CfgOK w.cfg)
-    (hD : ∀ n, w.F.desired.has n = true → w.cfg.owns n = true)
-    (x : String) (hx : w.cfg.owns x = false) : w.applyUpdates.1.K.get x = w.K.get x :=
-  (applyUpdates_FU w hc hD).2.2 x hx
+/-- **The invariant** (`Inv`): every set Felix was told about has a main-set name (owned, not a temporary
+name) and a member tracker, the desired sets are those that pass the filter, and the dataplane view and
+the resync queue only hold owned names.  It holds initially and is preserved by EVERY operation: the API
+calls, restart, out-of-band kernel edits, and `ApplyUpdates`/`ApplyDeletions` with any failure plan and
+any map-iteration order. -/
+theorem invariant_initial (c : Cfg) : Inv c ({} : Felix) := inv_init c
 
-/-- **foreign_untouched, ApplyDeletions** (`_partial`: the hypothesis `hP` "Felix's view of the
-dataplane only contains names it owns" is assumed; names enter the view only through the
-`OwnsIPSet` filter of the listing or as names Felix wrote, but that invariant is not proved here;
-the harness checks it on the real code after every apply). -/
-theorem foreign_untouched_applyDeletions_partial (w : W)
-    (hP : ∀ n ∈ w.F.dp.keys, w.cfg.owns n = true)
+theorem invariant_inductive (w : W) (op : Op) (hc : CfgOK w.cfg) (hm : CfgMain w.cfg) (h : Inv w.cfg w.F) :
+    (w.stepOp op).1.cfg = w.cfg ∧ Inv w.cfg (w.stepOp op).1.F :=
+  stepOp_inv w op hc hm h
+
+/-- **foreign_untouched, ApplyUpdates**: for every failure plan, order and start kernel, a set whose name
+Felix does not own is bit-for-bit unchanged by `ApplyUpdates`. -/
+theorem foreign_untouched_applyUpdates (w : W) (hc : CfgOK w.cfg) (h : Inv w.cfg w.F)
+    (x : String) (hx : w.cfg.owns x = false) : w.applyUpdates.1.K.get x = w.K.get x :=
+  (applyUpdates_FU w hc h.1.owned).2.2 x hx
+
+/-- **foreign_untouched, ApplyDeletions**. -/
+theorem foreign_untouched_applyDeletions (w : W) (h : Inv w.cfg w.F)
     (x : String) (hx : w.cfg.owns x = false) : w.applyDeletions.1.K.get x = w.K.get x :=
-  (applyDeletions_FU w hP).2.2 x hx
+  (applyDeletions_FU w (fun n hn => h.2.dp n ((Map.has_iff_mem_keys _ _).2 hn))).2.2 x hx
+
+/-- **foreign_untouched, whole histories**: starting from a fresh `IPSets` and ANY kernel, after any
+sequence of API calls, restarts, applies (any failure plans, any orders) and out-of-band edits of OTHER
+sets, a set that Felix does not own is exactly as it was. -/
+theorem foreign_untouched (c : Cfg) (hc : CfgOK c) (hm : CfgMain c) (K : Kernel) (ops : List Op) (x : String)
+    (hx : c.owns x = false) (he : ∀ op ∈ ops, op.edits x = false) :
+    (({ cfg := c, F := {}, K := K } : W).run ops).K.get x = K.get x :=
+  run_foreign ops { cfg := c, F := {}, K := K } hc hm (inv_init c) x hx he
+
+/-- **ipsets_converge**: from ANY start kernel (stale temporary sets, stale or wrongly typed main sets,
+foreign sets, unlistable sets), for ANY failure plan (restores failing after any number of lines or at
+start, listings failing with or without partial output, destroys failing) and any map-iteration orders:
+if `ApplyUpdates` — begun with `fullResyncRequired` set, as at start of day, after a restart and after
+persistent failures — returns successfully, then every desired set is in the kernel with exactly the
+desired type and parameters and exactly the desired members; every owned set in the kernel is in
+Felix's view; and the API-level state is untouched. -/
+theorem ipsets_converge (w : W) (hc : CfgOK w.cfg) (h : Inv w.cfg w.F) (hfull : w.F.fullReq = true)
+    (hs : w.applyUpdates.2 = true) (n : String) (dm : Meta) (t : MT)
+    (hd : w.F.desired.get n = some dm) (ht : w.F.members.get n = some t) :
+    (∃ k, w.applyUpdates.1.K.get n = some k ∧ metaMatches k dm ∧ setEq k.members t.des) ∧
+    Cov w.cfg w.applyUpdates.1.F w.applyUpdates.1.K ∧ w.applyUpdates.1.F.desired = w.F.desired := by
+  have post := applyUpdates_converges w hc h.1 hfull hs
+  refine ⟨?_, post.cov, post.desired⟩
+  have hn : w.F.desired.has n = true := Map.has_of_get hd
+  obtain ⟨dm', t', k, e1, e2, e3, e4, e5⟩ := post.exact n hn
+  obtain ⟨t'', ht'', hd''⟩ := post.desKeep n t.des (h.1.inAll n hn) ⟨t, ht, rfl⟩
+  rw [post.desired, hd] at e1
+  simp only [Option.some.injEq] at e1
+  rw [ht''] at e2
+  simp only [Option.some.injEq] at e2
+  subst e1; subst e2
+  exact ⟨k, e3, e4, by rw [← hd'']; exact e5⟩
+
+/-- **ipsets_converge, deletions**: after such an `ApplyUpdates`, any number of `ApplyDeletions` calls
+(any destroy failures, any orders) keep every desired set exact, and once nothing is pending deletion
+every Felix-owned set in the kernel is a desired one — no other Felix-owned set remains. -/
+theorem ipsets_converge_no_stale (w : W) (hc : CfgOK w.cfg) (h : Inv w.cfg w.F) (hfull : w.F.fullReq = true)
+    (hs : w.applyUpdates.2 = true) (rounds : List (Plan × List String)) :
+    let w' := w.applyUpdates.1.delRounds rounds
+    (∀ n, w.F.desired.has n = true → Exact w'.F w'.K n) ∧
+    (w'.F.pendingDeletions = [] → ∀ b, w.cfg.owns b = true → w'.K.has b = true → w.F.desired.has b = true) := by
+  have post := applyUpdates_converges w hc h.1 hfull hs
+  have had := delRounds_AD rounds w.applyUpdates.1
+  refine ⟨?_, ?_⟩
+  · intro n hn
+    apply had.exact (post.exact n hn)
+    rw [post.allMeta]; exact h.1.inAll n hn
+  · intro hdr b hown hk
+    have hcov : Cov w.cfg (w.applyUpdates.1.delRounds rounds).F (w.applyUpdates.1.delRounds rounds).K := by
+      have := had.cov (by rw [post.cfg]; exact post.cov)
+      rw [post.cfg] at this; exact this
+    have := no_stale_owned hcov hdr b hown hk
+    rw [had.pres.1.2.1, post.desired] at this
+    exact this
 
 /-- **swap_atomic**: what `writeUpdates` writes for a set `n` (for every visiting order `ord` of
 the member iterations).  Either the set is updated in place, and then every line targets `n`,
@@ -111,16 +170,26 @@ def exW : W :=
 example : exW.F.desired.has "cali40a" = true ∧ exW.K.has "cali40a" = true ∧ exW.cfg.owns "foo" = false := by decide
 theorem exW_desired : exW.F.desired = [("cali40a", ⟨"hash:ip", 100, 0, 0, false, false⟩)] := by decide
 
-/-- `exW` satisfies the hypotheses of the foreign-untouched theorems. -/
-example : ∀ n, exW.F.desired.has n = true → exW.cfg.owns n = true := by
-  intro n hn
-  rw [exW_desired] at hn
-  simp only [Map.has, Map.get, List.lookup] at hn
-  by_cases h : n = "cali40a"
-  · subst h; decide
-  · have : (n == "cali40a") = false := by simp [h]
-    simp [this] at hn
-example : ∀ n ∈ exW.F.dp.keys, exW.cfg.owns n = true := by decide
+/-- The real configuration satisfies the two configuration hypotheses. -/
+example : CfgMain realCfg := realCfg_main
+
+/-- `exW` satisfies the hypotheses of `ipsets_converge` and of the foreign-untouched theorems: its Felix
+state is reached from the empty one by one API call (so `Inv` holds by `invariant_inductive`), and it is
+at start of day (`fullResyncRequired`). -/
+example : Inv exW.cfg exW.F :=
+  addOrReplace_inv realCfg_main (inv_init realCfg) "a" ⟨"hash:ip", 100, 0, 0, false, false⟩ ["10.0.0.1"]
+example : exW.F.fullReq = true := by decide
+example : exW.F.desired.get "cali40a" = some ⟨"hash:ip", 100, 0, 0, false, false⟩ := by decide
+example : (exW.F.members.get "cali40a").map (·.des) = some ["10.0.0.1"] := by decide
+
+/- The remaining hypothesis of `ipsets_converge` — `ApplyUpdates` succeeds — is satisfiable: evaluated
+by the Lean interpreter (an executable check at build time, not a kernel proof: the kernel cannot unfold
+`List.mergeSort`/`Nat.repr`).  `exW` takes the temp-set-and-swap path and destroys the stale temp set;
+with a restore that dies after 2 lines and a failing first listing it still succeeds (after retries). -/
+#guard exW.applyUpdates.2
+#guard ({ exW with plan := { restores := [.failAt 2, .ok], names := [true, false] },
+                   hintR := [["cali40a"], ["cali40a"]], hintD := ["cali4t0", "cali4t0", "cali4t1"] } : W).applyUpdates.2
+#guard (exW.applyUpdates.1.K.get "cali40a").map (fun k => (k.type, k.members)) == some ("hash:ip", ["10.0.0.1"])
 
 /-- `swap_atomic` is not vacuous: a set whose metadata differs from the dataplane's takes the
 temporary-set branch (hypotheses satisfied by a concrete state). -/
